@@ -53,6 +53,19 @@ CHECKS = {
             'they are labelled with and one real periodic-loop pass is checked on the wire.',
             'Single subscriber; content comparison goes through the library reader (versions, handles, grouping through lxml only); '
             'ordering under concurrent writers is covered by the schedule-exploration part when present in the evidence.', '3/C04'),
+    'C08': ('H', 'explicit-state breadth-first search with canonical-state dedup over eventing histories on the four real subscription managers inside the real provider dispatch chain, against a reference model of subscription liveness on the same virtual clock',
+            'BFS to depth 4 (thorough 6) over 34 events - Subscribe (expires omitted / 5 / 99 > maximum), Renew, GetStatus, Unsubscribe, '
+            'the same three naming an unknown identifier, metric and alert reports, clock ticks of 2 s and 4 s across expiry, one pass of '
+            'the real housekeeping loop body, delivery-fault mode per subscriber (ok, HTTP 500, refused; thorough also timeout, not '
+            'connected), stop_all with and without end messages - for two subscribers (A: EndTo, two actions; B: no EndTo, one action) '
+            'whose requests are built by the real consumer-side ConsumerSubscription class, on path- and reference-parameter '
+            'dispatching, sync and async managers. After every event: the set of subscribers handed the notification equals the live, '
+            'filter-matching ones of a 30-line reference model; granted expiry <= min(requested, maximum); Renew/GetStatus within 0.01 s '
+            'of the model; requests for unknown / unsubscribed / expired / failed subscriptions are faults and change nothing; '
+            'stop_all(True) sends exactly one SubscriptionEnd per live subscription to EndTo else NotifyTo; the subscription table '
+            'passes the index scan.',
+            'One provider object is reused between histories (subscription table, client pool, wire log, clock, uuid counter are '
+            'reset); expiry instants are never hit exactly; "sent" means handed to the subscriber-facing SOAP client.', '3/C08'),
     'C10': ('H', 'explicit-state exploration of histories of set_location, SetContextState invocations (real consumer client, provider SCO worker body, role provider) and context transactions; invariant on the context table and on every EpisodicContextReport',
             'All 2-event histories over 26 events and all 3-event histories over a 7-event core (thorough: larger core): SetContextState '
             'requests with one or two proposals (new / update of the first or second existing state / stale handle x NoAssociation, '
